@@ -183,7 +183,9 @@ class Ref:
             x = z - nu
             # mix in points near x = 0 and neighbours of representable values
             x[: n // 8] = nu * 10.0 ** rng.uniform(-8, 3, size=n // 8)
-            if whole_domain:
+            if whole_domain or nm == "Reciprocal":
+                # (Reciprocal: forward and Jacobian share the domain x + nu > 0, whatever
+                # the mininu option)
                 lowz = np.exp(rng.uniform(math.log(1e-12), 0.0, size=n // 6)) * \
                     max(self.ctor.get("mininu", EPSB), 1e-12)
                 x = np.concatenate([x, lowz - nu])
@@ -362,7 +364,9 @@ class Ref:
         """distance (in x units) to the nearest singularity / branch switch"""
         nm, p = self.name, self.p
         x = np.asarray(x, dtype=float)
-        if nm in ("Log", "Reciprocal", "BoxCox2", "BoxCox1lam", "BoxCox1nu"):
+        if nm == "Reciprocal":
+            return x + p["nu"]
+        if nm in ("Log", "BoxCox2", "BoxCox1lam", "BoxCox1nu"):
             return x + p["nu"] - self.ctor.get("mininu", EPSB)
         if nm == "BoxCox2sym":
             return np.abs(x)
